@@ -1,18 +1,15 @@
 (* C03 - property theorems only; each is closed by a lemma of Lemmas*.v.
    x ranges over ALL described datatype trees (unbounded depth and width), v / prev over all Python values.
      wfx x         the tree is constructible: every property value is a fixed point of the datatype frappy declares for
-                   that property, limits ordered, optional members are members (Lemmas.v)
-     lossless x    excludes exactly the two lossy shapes listed as findings (blob maxbytes = 0 / scaled scale =
-                   float_info.min: a mandatory property equal to its datatype default is not exported; string with
-                   minchars > 0 and unlimited maxchars)
-     scaled_free x PARTIAL: the tree-level proofs do not cover ScaledInteger leaves (their rebuild is covered by the
-                   correspondence and the direct oracle only)
-     norm p x      x with enums named after the parameter, TextType as StringType, client flag set *)
+                   that property, limits ordered, scaled limits on the grid, optional members are members (Lemmas.v)
+     norm p x      x with enums named after the parameter, TextType as StringType, client flag set
+   After the repairs af5cb3e (mandatory properties always exported) and 414a5ee (string without maxchars = unlimited)
+   the rebuild / copy theorems carry no exception any more, and ScaledInteger leaves are covered. *)
 From Coq Require Import String Ascii.
 From Coq Require Import ZArith NArith Bool List.
 Import ListNotations.
 Require Import FV.Base.Util FV.Base.F64 FV.Base.PyVal FV.C01.Model FV.C01.Lemmas FV.Gen.C03 FV.C03.Model FV.C03.Lemmas
-  FV.C03.LemmasTree FV.C03.LemmasCompat FV.C03.Refuted.
+  FV.C03.LemmasScaled FV.C03.LemmasTree FV.C03.LemmasCompat FV.C03.Refuted.
 
 (* obligations on the facts regenerated from /repo (Gen/C03.v): the rebuild table, get_datatype, exportProperties,
    the property declarations and every export_datatype / copy / compatible body have the shape the model was written
@@ -28,17 +25,17 @@ Theorem C03_source_facts :
   forallb (fun q : str * str => tbl_forwarded (fst q) (snd q))
     [($"int", $"min"); ($"int", $"max"); ($"double", $"min"); ($"double", $"max"); ($"scaled", $"scale");
      ($"blob", $"minbytes"); ($"blob", $"maxbytes"); ($"string", $"minchars"); ($"string", $"maxchars");
-     ($"string", $"isUTF8"); ($"array", $"minlen"); ($"array", $"maxlen"); ($"enum", $"members")] = true.
+     ($"string", $"isUTF8"); ($"array", $"minlen"); ($"array", $"maxlen"); ($"enum", $"members")] = true /\
+  (* a string description without maxchars means unlimited *)
+  tbl_none_default $"string" $"maxchars" PNone = PInt UNL.
 Proof. repeat split; reflexivity. Qed.
 Print Assumptions C03_source_facts.
 
-(* FULL STATEMENT (not provable on the pinned tree, see Refuted.v): for every constructible tree
-   get_datatype(export_datatype(x)) is norm p x.  Proved: the same with the findings and scaled leaves excluded. *)
-Theorem C03_rebuild_except_lossy_shapes_partial : forall p x j fuel,
-  wfx x -> lossless x -> scaled_free x -> xt_export x = Ok j -> depth x <= fuel ->
-  get_dt fuel p j = Ok (Some (norm p x)).
-Proof. intros p x j fuel HW HL HS E HD. exact (rebuild_ok p x HW HL HS j E fuel HD). Qed.
-Print Assumptions C03_rebuild_except_lossy_shapes_partial.
+(* for every constructible tree get_datatype(export_datatype(x), p) is norm p x *)
+Theorem C03_rebuild : forall p x j fuel,
+  wfx x -> xt_export x = Ok j -> depth x <= fuel -> get_dt fuel p j = Ok (Some (norm p x)).
+Proof. intros p x j fuel HW E HD. exact (rebuild_ok p x HW j E fuel HD). Qed.
+Print Assumptions C03_rebuild.
 
 (* the rebuilt type has the same datainfo again ... *)
 Theorem C03_same_datainfo_again : forall p x, xt_export (norm p x) = xt_export x.
@@ -54,16 +51,16 @@ Print Assumptions C03_rebuilt_validates_same.
 (* copy(): the same description with no client flag; for a tree built by the constructors the very same description,
    hence the same datainfo and the same validation.  (That no mutable state is shared is a heap property: checked on
    the implementation by identity traversal + mutation of the copy, see harness/props/C03.py.) *)
-Theorem C03_copy_equiv_except_lossy_shapes_partial : forall x,
-  wfx x -> lossless x -> scaled_free x ->
+Theorem C03_copy_equiv : forall x,
+  wfx x ->
   xt_copy x = Ok (unclient x) /\ (server_side x -> unclient x = x) /\
   xt_export (unclient x) = xt_export x /\
   forall v prev, dt_validate (erase (unclient x)) v prev = dt_validate (erase x) v prev.
 Proof.
-  intros x HW HL HS. split; [apply copy_ok; assumption|]. split; [apply unclient_server|].
+  intros x HW. split; [apply copy_ok; assumption|]. split; [apply unclient_server|].
   split; [apply export_unclient|intros; apply validate_unclient].
 Qed.
-Print Assumptions C03_copy_equiv_except_lossy_shapes_partial.
+Print Assumptions C03_copy_equiv.
 
 (* compatible() on the same-kind fragment (int, bool, string/text, blob, arrays of these): passes only if every
    value of the first type's value set is in the second type's value set ... *)
@@ -80,22 +77,54 @@ Proof.
 Qed.
 Print Assumptions C03_compat_complete_same_kind_partial.
 
-(* non-vacuity: the hypotheses hold for ordinary types *)
+(* BoolType against ANY type (repaired 4137088): passes exactly when False and True are valid for the other type *)
+Theorem C03_compat_bool : forall b,
+  (compat XBool b = Ok tt -> forall v, in_setb (erase XBool) v = true -> accepts b v) /\
+  (accepts b (PBool false) -> accepts b (PBool true) -> compat XBool b = Ok tt).
+Proof. intros b. split; [intros H v; apply compat_bool_sound; assumption|apply compat_bool_complete]. Qed.
+Print Assumptions C03_compat_bool.
+
+(* IntRange against BoolType (repaired e3dd3e3): passes exactly when the range lies in {0, 1}, and then every value
+   of the range is valid for the bool *)
+Theorem C03_compat_int_into_bool : forall mn mx, (mn <= mx)%Z ->
+  (compat (XInt mn mx) XBool = Ok tt <-> (0 <= mn /\ mx <= 1)%Z) /\
+  (compat (XInt mn mx) XBool = Ok tt -> forall z, in_setb (erase (XInt mn mx)) (PInt z) = true -> accepts XBool (PInt z)).
+Proof.
+  intros mn mx H. split; [apply compat_int_bool_iff; assumption|intros HC z; apply compat_int_bool_sound; assumption].
+Qed.
+Print Assumptions C03_compat_int_into_bool.
+
+(* non-vacuity: the hypotheses hold for ordinary types, incl. the formerly lossy shapes and a scaled integer *)
 Definition sample : xt :=
   XStruct [($"a", XFloat fzero (fmk 10 0) fzero rel0 $"$/min" $"%.3f");
            ($"b", XArray (XEnum $"e" [($"off", 0%Z); ($"on", 1%Z)]) 0 3);
-           ($"c", XTuple [XInt 0 5; XString 0 UNL true false; XBlob 0 255; XBool])] [$"b"] false.
-Example C03_sample_hypotheses : wfx sample /\ lossless sample /\ scaled_free sample /\ server_side sample.
+           ($"c", XTuple [XInt 0 5; XString 3 UNL true false; XBlob 0 0; XBool])] [$"b"] false.
+Example C03_sample_hypotheses : wfx sample /\ server_side sample.
 Proof.
-  unfold sample. cbn [wfx lossless scaled_free server_side snd].
+  unfold sample. cbn [wfx server_side snd].
   repeat split; try discriminate; try (left; reflexivity); try (apply fix_by_bool; vm_compute; reflexivity);
     try (vm_compute; reflexivity); try (intros; discriminate).
 Qed.
 Example C03_sample_rebuilds : exists j, xt_export sample = Ok j /\ get_dt 3 $"p" j = Ok (Some (norm $"p" sample)).
 Proof.
-  destruct C03_sample_hypotheses as (HW & HL & HS & _).
-  eexists. split; [reflexivity|]. apply C03_rebuild_except_lossy_shapes_partial; try assumption; [reflexivity|cbn; auto].
+  destruct C03_sample_hypotheses as (HW & _).
+  eexists. split; [reflexivity|]. apply C03_rebuild; try assumption; [reflexivity|cbn; auto].
+Qed.
+(* ScaledInteger(0.5, 0, 5): limits on the grid *)
+Example C03_scaled_wfx : wfx (XScaled (fmk 1 (-1)) fzero (fmk 5 0) (fmk 1 (-1)) rel0 [] fmt0).
+Proof.
+  cbn [wfx].
+  split; [apply fix_by_bool; vm_compute; reflexivity|]. split; [apply fix_by_bool; vm_compute; reflexivity|].
+  split. { exists 0%Z, (fmk 0 0). split; [vm_compute; reflexivity|]. split; [apply float_of_Z_by_bool; vm_compute; reflexivity|].
+           apply res_by_bool. vm_compute. reflexivity. }
+  split. { exists 10%Z, (fmk 10 0). split; [vm_compute; reflexivity|]. split; [apply float_of_Z_by_bool; vm_compute; reflexivity|].
+           apply res_by_bool. vm_compute. reflexivity. }
+  split; [apply fix_by_bool; vm_compute; reflexivity|]. split; [apply fix_by_bool; vm_compute; reflexivity|].
+  split; [vm_compute; reflexivity|]. split; [vm_compute; reflexivity|]. split; vm_compute; reflexivity.
 Qed.
 Example C03_compat_example :
-  compat (XArray (XInt 0 5) 0 3) (XArray (XInt 0 10) 0 5) = Ok tt /\ is_err (compat (XArray (XInt 0 5) 0 3) (XArray (XInt 1 10) 0 5)) = true.
-Proof. split; vm_compute; reflexivity. Qed.
+  compat (XArray (XInt 0 5) 0 3) (XArray (XInt 0 10) 0 5) = Ok tt /\ is_err (compat (XArray (XInt 0 5) 0 3) (XArray (XInt 1 10) 0 5)) = true /\
+  (* regression of the repaired defects *)
+  compat (XInt 1 2) (XEnum [] [($"a", 1%Z); ($"b", 2%Z)]) = Ok tt /\ is_err (compat (XInt 1 3) (XEnum [] [($"a", 1%Z); ($"b", 2%Z)])) = true /\
+  is_err (compat XBool (XInt 5 10)) = true /\ compat XBool (XInt 0 1) = Ok tt.
+Proof. repeat split; vm_compute; reflexivity. Qed.
